@@ -109,7 +109,12 @@ fn resolve_keys(e: &Option<CExt>, reg_ids: &[Vec<u8>]) -> Option<CExt> {
     let fix = |p: &Option<CPrfI>| p.as_ref().map(|i| CPrfI { eval: i.eval.clone(), by_cred: i.by_cred.as_ref().map(|l| {
         let mut out: Vec<(String, CPrfV)> = vec![];
         for (k, v) in l {
-            let key = match k.strip_prefix('@') { Some(n) if !reg_ids.is_empty() => passkey_types::encoding::base64url(&reg_ids[n.parse::<usize>().unwrap_or(0) % reg_ids.len()]), Some(_) => "AAAA".to_string(), None => k.clone() };
+            // `<prefix>@<k><suffix>`: the k-th id in base64url with the given text around it
+            let key = match k.find('@') {
+                Some(pos) => { let rest = &k[pos + 1..]; let digits: String = rest.chars().take_while(|c| c.is_ascii_digit()).collect(); let suffix = &rest[digits.len()..];
+                    let mid = if reg_ids.is_empty() { "AAAA".to_string() } else { passkey_types::encoding::base64url(&reg_ids[digits.parse::<usize>().unwrap_or(0) % reg_ids.len()]) };
+                    format!("{}{}{}", &k[..pos], mid, suffix) }
+                None => k.clone() };
             if !out.iter().any(|(k2, _)| *k2 == key) { out.push((key, v.clone())); }
         }
         out }) });
@@ -291,7 +296,7 @@ pub fn emit_pair(ctx: &mut Ctx, i: usize) -> Vec<(String, String, String)> {
         timeout: None, exclude_credentials: None, authenticator_selection: None, hints: None, attestation: Default::default(), attestation_formats: None,
         extensions: if i % 4 == 0 { None } else { Some(AuthenticationExtensionsClientInputs { cred_props: if i % 2 == 0 { Some(true) } else { None }, prf: if i % 3 == 1 { Some(prf(ctx)) } else { None }, prf_already_hashed: None }) } } };
     let mut out = vec![];
-    let Ok(c) = block_on(client.register(&url, opts, DefaultClientData)) else { return out; };
+    let Some(Ok(c)) = guarded(|| block_on(client.register(&url, opts, DefaultClientData))) else { return out; };
     let id = c.raw_id.to_vec();
     out.push(("created".to_string(), serde_json::to_string(&c).unwrap(), format!("{:?}", c)));
     let opts = webauthn::CredentialRequestOptions { public_key: webauthn::PublicKeyCredentialRequestOptions {
@@ -299,6 +304,6 @@ pub fn emit_pair(ctx: &mut Ctx, i: usize) -> Vec<(String, String, String)> {
         allow_credentials: Some(vec![PublicKeyCredentialDescriptor { ty: PublicKeyCredentialType::PublicKey, id: id.into(), transports: None }]),
         user_verification: Default::default(), hints: None, attestation: Default::default(), attestation_formats: None,
         extensions: if i % 3 == 1 { Some(AuthenticationExtensionsClientInputs { cred_props: None, prf: Some(prf(ctx)), prf_already_hashed: None }) } else { None } } };
-    if let Ok(a) = block_on(client.authenticate(&url, opts, DefaultClientData)) { out.push(("authenticated".to_string(), serde_json::to_string(&a).unwrap(), format!("{:?}", a))); }
+    if let Some(Ok(a)) = guarded(|| block_on(client.authenticate(&url, opts, DefaultClientData))) { out.push(("authenticated".to_string(), serde_json::to_string(&a).unwrap(), format!("{:?}", a))); }
     out
 }
